@@ -8,6 +8,14 @@ import facts
 from runner import Check
 
 PROPS = {
+    "C09": ("rules_c09", "other",
+            "Decided (structural clauses): an Err return of push/update is never preceded by a mutable reborrow of *self (CFG) and, on "
+            "abstract cases, leaves the abstract tree equal to the input; every storage addition with .unwrap() is preceded by the same "
+            "addition on a clone of the root total whose failure returns Err(Overflow); the weight predicate (NaN/negative -> InvalidWeight; "
+            "-0, +0, positive, +inf accepted; integer overflow -> Overflow) on interval cases for new/push/update; the parent map of all "
+            "ancestor walks is floor((i-1)/2), the child maps of get/try_sample are 2i+1/2i+2, mutually inverse, walks write at the stepped "
+            "index; try_sample returns InsufficientNonZero iff empty or zero total. Not decided: equality with a fresh build after "
+            "arbitrary histories (needs the inductive subtotal invariant)."),
     "C07": ("rules_c07", "proof",
             "Decided: a units-of-measure typing derivation (location: Point, scale: L, rate: 1/L, shape: dimensionless) of constructor "
             "-> inferred field units -> sample for 13 families x f32/f64, and of from_zscore with std_dev : L/Z, z : Z. A well-typed program "
